@@ -243,13 +243,20 @@ Definition adc_ok (g : gen) (a : Z) : bool :=
   if list_eq_dec Z.eq_dec (map (shift_closed g) (served g a)) (zrange (Z.to_nat (adc_channels g)))
   then true else false.
 
+Lemma adc_ok_all : forall g, forallb (adc_ok g) (adc_all g) = true.
+Proof. intros []; vm_compute; reflexivity. Qed.
+
+Lemma adc_ok_true g a : adc_ok g a = true ->
+  map (shift_closed g) (served g a) = zrange (Z.to_nat (adc_channels g)).
+Proof.
+  unfold adc_ok. destruct (list_eq_dec Z.eq_dec _ _) as [E|]; [intros _; exact E|discriminate].
+Qed.
+
 Lemma adc_each_served : forall g a, In a (adc_all g) ->
   map (shift_closed g) (served g a) = zrange (Z.to_nat (adc_channels g)).
 Proof.
-  intros g a Ha.
-  assert (H : forallb (adc_ok g) (adc_all g) = true) by (destruct g; vm_compute; reflexivity).
-  rewrite forallb_forall in H. specialize (H a Ha). unfold adc_ok in H.
-  destruct (list_eq_dec Z.eq_dec _ _) as [E|]; [exact E|discriminate].
+  intros g a Ha. apply adc_ok_true.
+  pose proof (adc_ok_all g) as H. rewrite forallb_forall in H. exact (H a Ha).
 Qed.
 
 (* ================================================================== *)
